@@ -57,6 +57,26 @@ def rm_script(rng, case):
         n, p = rng.choice(inst)
         sc.append({'at': rng.randint(2, 8), 'cmd': 'force_trigger_tasks',
                    'args': {'tasks': [f'{p}/{n}'], 'flow': ['new']}})
+    if rng.random() < 0.3:
+        # multi-flow history: re-run a parent in a new flow once the first
+        # flow has (probably) passed its children, then remove it from all
+        # flows while a child waits in the new flow only
+        cands = []
+        for (n, p) in inst:
+            for ar in wfgen.arrows_at(gt, n, p):
+                ps = {(a[1], wfgen.atom_point(a, p)) for a in wfgen.atoms(ar)
+                      if wfgen.atom_point(a, p) >= gt['initial']}
+                if len(ps) >= 2:
+                    cands += sorted(ps)
+        if cands:
+            a, q = rng.choice(cands)
+            t = rng.randint(10, 20)
+            sc.append({'at': t, 'cmd': rng.choice(['force_trigger_tasks',
+                                                   'set']),
+                       'args': {'tasks': [f'{q}/{a}'], 'flow': ['new']}})
+            sc.append({'at': t + rng.randint(2, 6), 'cmd': 'remove_tasks',
+                       'args': {'tasks': [f'{q}/{a}'],
+                                'flow': rng.choice([[], [], ['2']])}})
     for _ in range(rng.randint(1, 3)):
         k = rng.choice([1, 1, 2])
         ids = sorted({'%d/%s' % (p, n) for n, p in rng.sample(inst, k)})
